@@ -487,10 +487,8 @@ func (p *Proxy) findBackendByDialog(msg *Message) (Backend, ServerTransport, err
 		return nil, nil, err
 	}
 
-	// no dialog for INVITE and SUBSCRIBE message because they initialize the dialog
-	if method == "INVITE" || method == "SUBSCRIBE" {
-		return nil, nil, fmt.Errorf("no dialog for request %s", method)
-	}
+	// an initial INVITE or SUBSCRIBE carries no To tag yet, so GetDialog fails for it and the
+	// request is load-balanced; a re-INVITE or refresh SUBSCRIBE belongs to its dialog
 	dialog, err := msg.GetDialog()
 
 	if err != nil {
